@@ -14,6 +14,7 @@ import (
 	"os"
 	"sort"
 	"strings"
+	"sync/atomic"
 	"time"
 
 	"github.com/pion/rtcp"
@@ -37,6 +38,7 @@ type reqSpec struct {
 	Mode   string // "", "play", "record"
 	Proto  string // tcp udp mcast
 	Medias int    // ANNOUNCE: number of medias
+	Denied bool   // the application's handler answers 461 (no error) to this request
 }
 
 var alphabet = []reqSpec{
@@ -58,6 +60,13 @@ var alphabet = []reqSpec{
 	{Name: "TEARDOWN", Method: base.Teardown},
 	{Name: "GET_PARAMETER", Method: base.GetParameter},
 	{Name: "SET_PARAMETER", Method: base.SetParameter},
+	// the same requests, refused by the application (handler returns a non-200 response and no error):
+	// an error answer that must leave everything as it was
+	{Name: "ANNOUNCE1-denied", Method: base.Announce, Medias: 1, Denied: true},
+	{Name: "SETUP0-play-tcp-denied", Method: base.Setup, Track: 0, Proto: "tcp", Denied: true},
+	{Name: "SETUP0-record-tcp-denied", Method: base.Setup, Track: 0, Mode: "record", Proto: "tcp", Denied: true},
+	{Name: "PLAY-denied", Method: base.Play, Denied: true},
+	{Name: "RECORD-denied", Method: base.Record, Denied: true},
 }
 
 var sessVariants = []string{"right", "absent", "wrong"}
@@ -148,10 +157,15 @@ type model struct {
 	sessions  map[string]*msess
 	known     string // last session id seen in a response
 	connBound string // id of the session the current connection is bound to ("" = none)
+	// afterRefusal names the last request when it was answered with an error and the connection
+	// survived. It is part of the pruning key only: "an error leaves the state unchanged" is exactly
+	// the claim that such a state has the same future as the one before the request, so the search must
+	// not assume it - it expands the state reached through each kind of refused request separately.
+	afterRefusal string
 }
 
 type class struct {
-	kind   string // L I E ANY
+	kind   string // L I E ANY R (R: legal, but refused by the application)
 	next   int    // state after success (for L / E)
 	ends   bool   // success ends the session (TEARDOWN)
 	fresh  bool   // the request addresses a session that does not exist yet
@@ -174,6 +188,18 @@ func hasCallback(handlers string, m base.Method) bool {
 }
 
 func (m *model) expect(st Step) class {
+	c := m.expectPlain(st)
+	if alphabet[st.Req].Denied && c.kind == "L" {
+		// the library would accept it, the application refuses: error answer, nothing changes
+		c.kind, c.ends = "R", false
+		if c.target != nil {
+			c.next = c.target.state
+		}
+	}
+	return c
+}
+
+func (m *model) expectPlain(st Step) class {
 	rs := alphabet[st.Req]
 	hdr := st.Sess
 	if hdr == "right" && m.known == "" {
@@ -363,6 +389,9 @@ func (m *model) key() string {
 		return fmt.Sprintf("%s/%s/%s/a%d", stateNames[s.state], strings.Join(su, "+"), s.proto, s.announced)
 	}
 	parts = append(parts, "known="+desc(m.known), "bound="+desc(m.connBound), fmt.Sprint("same=", m.known == m.connBound), fmt.Sprint("live=", min(live, 2)))
+	if m.afterRefusal != "" {
+		parts = append(parts, "after-refused="+m.afterRefusal)
+	}
 	return strings.Join(parts, ";")
 }
 
@@ -393,7 +422,16 @@ func execute(cfg Cfg, hist []Step) (res execResult) {
 	if err != nil {
 		return execResult{Fail: &fail{"harness/server-start", err.Error()}}
 	}
-	_ = app
+	var denyNext atomic.Bool
+	app.Hook = func(kind, _, _ string) *base.Response {
+		switch kind {
+		case "announce", "setup", "play", "record":
+			if denyNext.CompareAndSwap(true, false) {
+				return &base.Response{StatusCode: base.StatusUnsupportedTransport}
+			}
+		}
+		return nil
+	}
 	m := &model{cfg: cfg, sessions: map[string]*msess{}}
 	peer, err := env.Dial(nil)
 	if err != nil {
@@ -422,6 +460,7 @@ func execute(cfg Cfg, hist []Step) (res execResult) {
 		res.Classes = append(res.Classes, exp.kind)
 		req := buildRequest(st, m.known)
 		logBefore := len(env.Log.Snapshot())
+		denyNext.Store(alphabet[st.Req].Denied)
 		if err := peer.Send(req); err != nil {
 			res.Fail = failf(i, "send-failed", "cannot send request: %v", err)
 			break
@@ -474,7 +513,12 @@ func execute(cfg Cfg, hist []Step) (res execResult) {
 			if ok {
 				res.Fail = failf(i, name+"/illegal-request-accepted/"+stateName(exp), "illegal request answered %d (%s)", status, exp.why)
 			}
+		case "R":
+			if ok {
+				res.Fail = failf(i, name+"/refused-by-application-but-answered-ok/"+stateName(exp), "the application's handler answered 461, the peer received %d", status)
+			}
 		}
+		denyNext.Store(false)
 		if res.Fail != nil {
 			break
 		}
@@ -484,6 +528,13 @@ func execute(cfg Cfg, hist []Step) (res execResult) {
 			if exp.fresh && respID != "" {
 				t.id = respID
 				m.sessions[respID] = t
+			}
+			hiddenID := false
+			if exp.fresh && exp.kind == "R" && respID == "" && rev.Session != nil {
+				// the refused request created a session (state initial) whose id the peer was not told
+				t.id = rev.Session.VerifC19SecretID()
+				m.sessions[t.id] = t
+				hiddenID = true
 			}
 			if t.id != "" {
 				if respID != "" && respID != t.id && !exp.fresh {
@@ -521,7 +572,9 @@ func execute(cfg Cfg, hist []Step) (res execResult) {
 				}
 			}
 			if t.id != "" {
-				m.known = t.id
+				if !hiddenID {
+					m.known = t.id
+				}
 				if ok || rev.Session != nil {
 					m.connBound = t.id
 				}
@@ -537,13 +590,17 @@ func execute(cfg Cfg, hist []Step) (res execResult) {
 		} else if respID != "" && exp.kind != "ANY" {
 			// a session-less request must not bind anything
 		}
-		res.States = append(res.States, m.key())
 		// is the connection still served?
 		alive, herr := peer.Alive()
 		if herr != nil {
 			res.Fail = failf(i, name+"/hang-after-response", "server neither answers nor closes the connection")
 			break
 		}
+		m.afterRefusal = ""
+		if !ok && alive {
+			m.afterRefusal = alphabet[st.Req].Name
+		}
+		res.States = append(res.States, m.key())
 		if !alive {
 			if ok {
 				res.Fail = failf(i, name+"/connection-closed-after-success", "server closed the connection after answering %d", status)
@@ -888,7 +945,7 @@ func main() {
 		})
 	}
 	run := evid.New("C02", "model_checking")
-	run.Rule("state = canonical key (state of the addressed session per the reference machine, its set-up medias, transport and announced media count, whether the connection is bound to it, whether the known id is still valid, number of live sessions) reached by the shortest request history; transition = that history replayed on a fresh real server plus one request from the alphabet (18 requests x Session header {right, absent, wrong}); BFS to depth 4 (quick) / 6 (thorough) per configuration (handler subsets {all, norecord, nopause, describeonly} x UDP {off,on}); every trace runs on the implementation. non-trivial = history of length >= 2; plus the timer grid {tcp-play, udp-play, udp-record, tcp-record} x {live, silent} x (IdleTimeout, ReadTimeout) in {(6,2),(10,10),(60,10)} s under virtual time")
+	run.Rule("state = canonical key (state of the addressed session per the reference machine, its set-up medias, transport and announced media count, whether the connection is bound to it, whether the known id is still valid, number of live sessions) reached by the shortest request history; transition = that history replayed on a fresh real server plus one request from the alphabet (18 requests + 5 of them refused by the application's handler with 461 and no error, x Session header {right, absent, wrong}); BFS to depth 4 (quick) / 6 (thorough) per configuration (handler subsets {all, norecord, nopause, describeonly} x UDP {off,on}); every trace runs on the implementation. non-trivial = history of length >= 2; plus the timer grid {tcp-play, udp-play, udp-record, tcp-record} x {live, silent} x (IdleTimeout, ReadTimeout) in {(6,2),(10,10),(60,10)} s under virtual time")
 	run.Assume("reference machine = DESIGN.md Appendix A: L cells must succeed (<400) with the stated next state, I cells must fail (>=400) with the state unchanged, E cells may do either but consistently; the status code itself is never prescribed")
 	run.Assume("connection liveness after each response is observed with an OPTIONS probe (deterministic: the server handles one request at a time and closes right after a response produced together with an error); a connection closed after a response < 400 is a violation")
 	run.Assume("a session must end when its last connection goes away unless it streams (play/record) over UDP; the harness keeps one live connection at a time")
